@@ -134,6 +134,10 @@ fn main() {
             let (events, bytes) = sh.finish();
             println!("{}", serde_json::json!({"prop": prop, "build": build_tag(), "events": events, "bytes": bytes, "stats": stats}));
         }
+        "concworker" => {
+            let variant: u64 = pos.first().expect("variant").parse().expect("variant number");
+            gen_tf::conc_worker(variant, &o);
+        }
         "c13worker" => {
             let batch = pos.first().expect("batch").clone();
             gen_safety::worker_main(&batch, &o);
